@@ -1,4 +1,6 @@
 import GlareModel.Core.Sem
+import GlareModel.Core.Drain
+import GlareModel.Props.C11
 /-! # C06 — Joins return exactly the defined pairs and unmatched rows
 
 Abstract model of the two join algorithms over arbitrary row types: the nested-loop join is the
@@ -84,5 +86,251 @@ theorem left_join_preserves (kl : L → Option K) (kr : R → Option K) (ls : Li
 
 example : hashJoin (fun _ : Nat => 0) (fun l : Nat × Nat => if l.1 = 0 then none else some l.1) (fun r : Nat => some r)
     [(1, 10), (0, 11), (2, 12), (1, 13)] [1, 2, 1] = [((1, 10), 1), ((1, 10), 1), ((2, 12), 2), ((1, 13), 1), ((1, 13), 1)] := by decide
+
+end GlareModel.Props.C06
+
+/-! ## Draining the build side: every kept row exactly once (Core/Drain.lean) -/
+
+namespace GlareModel.Props.C06
+open GlareModel.Scan GlareModel.Drain
+universe u
+variable {α : Type u}
+
+/-- The rows a drain keeps, in order. -/
+def kept (keep : Bool → Bool) (l : List (Row α)) : List α := (l.filter fun r => keep r.2).map (·.1)
+
+theorem kept_append (keep : Bool → Bool) (a b : List (Row α)) : kept keep (a ++ b) = kept keep a ++ kept keep b := by
+  simp [kept]
+
+/-- What one pass over (the rest of) a block does. -/
+theorem scanBlock_spec (keep : Bool → Bool) (rows : List (Row α)) (i need : Nat) (hn : 0 < need) :
+    match scanBlock keep rows i need with
+    | (got, none) => got = kept keep rows ∧ got.length < need
+    | (got, some next) => ∃ j, j ≤ rows.length ∧ next = i + j ∧ got = kept keep (rows.take j) ∧ got.length = need := by
+  induction rows generalizing i need with
+  | nil => simp [scanBlock, kept, hn]
+  | cons r rest ih =>
+    obtain ⟨v, m⟩ := r
+    simp only [scanBlock]
+    by_cases hk : keep m = true
+    · simp only [hk, if_true]
+      by_cases h1 : need = 1
+      · simp only [h1, if_true]
+        exact ⟨1, by simp, rfl, by simp [kept, hk], rfl⟩
+      · simp only [h1, if_false]
+        have := ih (i + 1) (need - 1) (by omega)
+        revert this
+        cases hsb : scanBlock keep rest (i + 1) (need - 1) with
+        | mk got nx =>
+          cases nx with
+          | none =>
+            intro h
+            simp only at h ⊢
+            exact ⟨by simp [kept, hk, h.1, List.filter_cons], by simp; omega⟩
+          | some next =>
+            intro h
+            simp only at h ⊢
+            obtain ⟨j, hj, hnext, hgot, hlen⟩ := h
+            exact ⟨j + 1, by simp; omega, by omega, by simp [kept, hk, hgot, List.filter_cons], by simp; omega⟩
+    · have hk' : keep m = false := by simpa using hk
+      simp only [hk', Bool.false_eq_true, if_false]
+      have := ih (i + 1) need hn
+      revert this
+      cases hsb : scanBlock keep rest (i + 1) need with
+      | mk got nx =>
+        cases nx with
+        | none =>
+          intro h
+          simp only at h ⊢
+          exact ⟨by simp [kept, hk', h.1, List.filter_cons], h.2⟩
+        | some next =>
+          intro h
+          simp only at h ⊢
+          obtain ⟨j, hj, hnext, hgot, hlen⟩ := h
+          exact ⟨j + 1, by simp; omega, by omega, by simp [kept, hk', hgot, List.filter_cons], hlen⟩
+
+/-- Unfolding `step_by` on a dropped list by index: the element at `k` (if any), then the stride from `k + P`. -/
+theorem stepBy_drop (P : Nat) (hP : 0 < P) (xs : List α) (k : Nat) :
+    stepBy P (xs.drop k) = match xs[k]? with
+      | none => []
+      | some x => x :: stepBy P (xs.drop (k + P)) := by
+  cases h : xs[k]? with
+  | none =>
+    have : xs.length ≤ k := by simpa using h
+    simp [List.drop_eq_nil_of_le this, stepBy]
+  | some x =>
+    have hk : k < xs.length := by
+      rcases List.getElem?_eq_some_iff.mp h with ⟨hk, _⟩; exact hk
+    have hx : xs[k] = x := by
+      rcases List.getElem?_eq_some_iff.mp h with ⟨_, hx⟩; exact hx
+    rw [List.drop_eq_getElem_cons hk, stepBy, hx]
+    have e : k + 1 + (P - 1) = k + P := by omega
+    rw [List.drop_drop, e]
+
+/-- The rows partition `p` still has to look at from cursor `c`: the rest of the current block, then
+every `P`-th block after it. -/
+def remaining (blocks : List (List (Row α))) (P : Nat) (c : Cursor) : List (Row α) :=
+  ((blocks[c.block]?).getD []).drop c.row ++ (stepBy P (blocks.drop (c.block + P))).flatten
+
+theorem remaining_start (blocks : List (List (Row α))) (P : Nat) (hP : 0 < P) (b : Nat) :
+    remaining blocks P { block := b, row := 0 } = (stepBy P (blocks.drop b)).flatten := by
+  unfold remaining
+  rw [stepBy_drop P hP blocks b]
+  cases h : blocks[b]? with
+  | none =>
+    have hl : blocks.length ≤ b := by simpa using h
+    simp [List.drop_eq_nil_of_le (show blocks.length ≤ b + P by omega), stepBy]
+  | some x => simp
+
+theorem remaining_nil_of_le (blocks : List (List (Row α))) (P : Nat) (c : Cursor) (h : blocks.length ≤ c.block) :
+    remaining blocks P c = [] := by
+  unfold remaining
+  have hb : blocks[c.block]? = none := by simpa using h
+  simp [hb, List.drop_eq_nil_of_le (show blocks.length ≤ c.block + P by omega), stepBy]
+
+/-- One `load_row_ptrs` call (with enough fuel to walk over the remaining blocks): the rows it pushes
+followed by what the new cursor still has to yield are exactly what the old cursor had to yield; and
+the batch is full, or the partition is exhausted. -/
+theorem loadRows_spec (keep : Bool → Bool) (blocks : List (List (Row α))) (P : Nat) (hP : 0 < P)
+    (fuel : Nat) (c : Cursor) (need : Nat) (hn : 0 < need) (hf : blocks.length < c.block + fuel * P) :
+    let r := loadRows keep blocks P fuel c need
+    r.1 ++ kept keep (remaining blocks P r.2) = kept keep (remaining blocks P c) ∧
+      (r.1.length = need ∨ (r.1.length < need ∧ kept keep (remaining blocks P r.2) = [])) := by
+  induction fuel generalizing c need with
+  | zero =>
+    have hrem := remaining_nil_of_le blocks P c (by simp at hf; omega)
+    simp [loadRows, hrem, kept, hn]
+  | succ fuel ih =>
+    simp only [loadRows]
+    cases hb : blocks[c.block]? with
+    | none =>
+      have hl : blocks.length ≤ c.block := by simpa using hb
+      have hrem := remaining_nil_of_le blocks P c hl
+      simp [hrem, kept, hn]
+    | some b =>
+      simp only
+      have hspec := scanBlock_spec keep (b.drop c.row) c.row need hn
+      revert hspec
+      cases hsb : scanBlock keep (b.drop c.row) c.row need with
+      | mk got nx =>
+        cases nx with
+        | some next =>
+          intro h
+          obtain ⟨j, hj, hnext, hgot, hlen⟩ := h
+          simp only
+          refine ⟨?_, Or.inl hlen⟩
+          unfold remaining
+          simp only [hb, Option.getD_some, kept_append]
+          rw [← List.append_assoc]
+          congr 1
+          rw [hgot, hnext, ← kept_append]
+          congr 1
+          rw [← List.drop_drop, List.take_append_drop]
+        | none =>
+          intro h
+          obtain ⟨hgot, hlt⟩ := h
+          simp only
+          by_cases hfuel : blocks.length < (c.block + P) + fuel * P
+          · have := ih { block := c.block + P, row := 0 } (need - got.length) (by omega) hfuel
+            simp only at this
+            obtain ⟨h1, h2⟩ := this
+            refine ⟨?_, ?_⟩
+            · rw [List.append_assoc, h1]
+              rw [remaining_start blocks P hP (c.block + P)]
+              unfold remaining
+              simp only [hb, Option.getD_some, kept_append, hgot]
+            · rcases h2 with h2 | h2
+              · left; simp only [List.length_append]; omega
+              · right; refine ⟨by simp only [List.length_append]; omega, h2.2⟩
+          · -- out of fuel can only happen past the last block
+            exfalso
+            have : (fuel + 1) * P = fuel * P + P := by rw [Nat.succ_mul]
+            omega
+
+/-- Draining a partition batch by batch (`drain_next` until it returns nothing) yields exactly the kept
+rows of its blocks, in order, whatever the output batch capacity: the cursor never skips a row when a
+batch fills up in the middle of a block and never re-reads one. -/
+theorem drainAll_flatten (keep : Bool → Bool) (blocks : List (List (Row α))) (P cap : Nat) (hP : 0 < P) (hcap : 0 < cap)
+    (fuel : Nat) (c : Cursor) (hf : (kept keep (remaining blocks P c)).length < fuel) :
+    (drainAll keep blocks P cap fuel c).flatten = kept keep (remaining blocks P c) := by
+  induction fuel generalizing c with
+  | zero => omega
+  | succ fuel ih =>
+    simp only [drainAll]
+    have hfuel : blocks.length < c.block + (blocks.length + 1) * P := by
+      have : blocks.length + 1 ≤ (blocks.length + 1) * P := Nat.le_mul_of_pos_right _ hP
+      omega
+    obtain ⟨h1, h2⟩ := loadRows_spec keep blocks P hP (blocks.length + 1) c cap hcap hfuel
+    -- (h1, h2 are already in simplified form)
+    split
+    · rename_i hempty
+      have he : (loadRows keep blocks P (blocks.length + 1) c cap).1 = [] := by simpa using hempty
+      rw [he] at h1 h2
+      rcases h2 with h2 | h2
+      · exfalso; simp only [List.length_nil] at h2; omega
+      · rw [← h1, h2.2]; simp
+    · rename_i hne
+      have hpos : 0 < (loadRows keep blocks P (blocks.length + 1) c cap).1.length := by
+        cases hl : (loadRows keep blocks P (blocks.length + 1) c cap).1 with
+        | nil => simp [hl] at hne
+        | cons x xs => simp
+      have hlen : (kept keep (remaining blocks P c)).length =
+          (loadRows keep blocks P (blocks.length + 1) c cap).1.length + (kept keep (remaining blocks P (loadRows keep blocks P (blocks.length + 1) c cap).2)).length := by
+        rw [← h1, List.length_append]
+      simp only [List.flatten_cons]
+      rw [ih _ (by omega), h1]
+
+theorem stepBy_sublist (P : Nat) (xs : List α) : (stepBy P xs).Sublist xs := by
+  fun_induction stepBy P xs with
+  | case1 => exact List.Sublist.refl _
+  | case2 x xs ih => exact List.Sublist.cons_cons x (ih.trans (List.drop_sublist _ _))
+
+theorem flatten_length_le_of_sublist {l1 l2 : List (List α)} (h : l1.Sublist l2) : l1.flatten.length ≤ l2.flatten.length := by
+  induction h with
+  | slnil => simp
+  | cons a _ ih => simp only [List.flatten_cons, List.length_append]; omega
+  | cons_cons a _ ih => simp only [List.flatten_cons, List.length_append]; omega
+
+theorem kept_flatMap_flatten (keep : Bool → Bool) (ps : List Nat) (f : Nat → List (List (Row α))) :
+    kept keep (ps.flatMap f).flatten = ps.flatMap fun p => kept keep (f p).flatten := by
+  induction ps with
+  | nil => simp [kept]
+  | cons p ps ih => simp only [List.flatMap_cons, List.flatten_append, kept_append, ih]
+
+/-- **Every unmatched build row is emitted exactly once**: for every partition count `P ≥ 1`, every
+output batch capacity and every block layout of the build side, draining all partitions (each one
+its blocks `p, p+P, p+2P, ...`, batch by batch) yields a permutation of the rows the drain keeps
+(unmatched rows for LEFT, all rows for MARK) - none lost at a block or batch boundary, none twice. -/
+theorem drain_exactly_once (keep : Bool → Bool) (blocks : List (List (Row α))) (P cap : Nat) (hP : 0 < P) (hcap : 0 < cap) :
+    ((List.range P).flatMap fun p =>
+        (drainAll keep blocks P cap (blocks.flatten.length + 1) { block := p, row := 0 }).flatten).Perm
+      (kept keep blocks.flatten) := by
+  have hrows : ∀ p, (drainAll keep blocks P cap (blocks.flatten.length + 1) { block := p, row := 0 }).flatten
+      = kept keep (skipStep P p blocks).flatten := by
+    intro p
+    have hrem := remaining_start blocks P hP p
+    rw [drainAll_flatten keep blocks P cap hP hcap _ _ ?_, hrem]
+    · rfl
+    · -- fuel: the kept rows of a sub-stream are at most all rows
+      rw [hrem]
+      have h1 : (kept keep (stepBy P (blocks.drop p)).flatten).length ≤ (stepBy P (blocks.drop p)).flatten.length := by
+        unfold kept; rw [List.length_map]; exact List.length_filter_le _ _
+      have h2 : (stepBy P (blocks.drop p)).flatten.length ≤ blocks.flatten.length := by
+        have hsub : (stepBy P (blocks.drop p)).Sublist blocks :=
+          (stepBy_sublist P (blocks.drop p)).trans (List.drop_sublist _ _)
+        exact flatten_length_le_of_sublist hsub
+      omega
+  have hperm := (C11.skipStep_queues_partition P hP blocks).flatten
+  have := (hperm.filter (fun r => keep r.2)).map (·.1)
+  refine List.Perm.trans (List.Perm.of_eq ?_) this
+  have hk := kept_flatMap_flatten keep (List.range P) (fun p => skipStep P p blocks)
+  unfold kept at hk
+  rw [hk]
+  apply C11.flatMap_congr_mem
+  intro p _
+  rw [hrows p]; rfl
+
+example : drainAll (fun m => !m) [[(1, false), (2, true), (3, false)], [(4, false)], [(5, false), (6, false)]] 2 2 8 { block := 0, row := 0 }
+    = [[1, 3], [5, 6]] := by decide
 
 end GlareModel.Props.C06
